@@ -44,8 +44,58 @@ def build_c19(sc, gen):
     # the selection walks Go maps twice per call: their iteration order is owned through the runtime overlay
     import c12
     repl.update(json.load(open(c12.maprot_overlay(sc)))["Replace"])
+    tags = "verif"
+    if treecache_rig(sc, gen, od, repl):
+        tags = "verif,tcrig"
     ov = D.write_overlay(od, repl)
-    return D.go_build(mod, os.path.join(mod, "h"), overlay=ov)
+    return D.go_build(mod, os.path.join(mod, "h"), overlay=ov, tags=tags)
+
+
+def treecache_rig(sc, gen, od, repl):
+    """Bind treecache.go to the explorer (see overlay/d2/verif_treecache.go.tmpl): returns False when the
+    current source no longer has the shape the textual derivation relies on (the harness then reports the
+    treecache part as not explored instead of guessing)."""
+    gdir = D.GENS[gen]["dir"]
+    path = os.path.join(gdir, "d2", "treecache.go")
+    try:
+        src = open(path).read()
+    except OSError:
+        return False
+    m = re.search(r'"(github\.com/[^"]*go-zookeeper/zk)"', src)
+    lm = re.search(r"\nfunc \(tc \*TreeCache\) loop\(path string\) \{\n(.*?)\n\}\n", src, re.S)
+    if not m or not lm:
+        return False
+    loop = lm.group(1)
+    def between(a, b):
+        i = loop.find(a)
+        j = loop.find(b, i + len(a)) if i >= 0 else -1
+        if i < 0 or j < 0:
+            return None
+        return loop[i + len(a):j]
+    first = "\terr := tc.recursiveNodeUpdate(path, tc.head)\n"
+    pro = between(first, "\n\tfor {\n")
+    ev = between("\t\tcase ev := <-tc.head.events:\n", "\t\tcase <-retryChan:\n")
+    rt = between("\t\tcase <-retryChan:\n", "\t\tcase <-tc.stop:\n")
+    if pro is None or ev is None or rt is None:
+        return False
+    pro = first + pro
+    def adapt(b):
+        b = re.sub(r"\bcontinue\b", "return", b)
+        b = re.sub(r"\bfailureMode\b", "d.failureMode", b)
+        return re.sub(r"\bfailure\(\)", "d.failure()", b)
+    new_src, n1 = re.subn(r"conn(\s+)\*zk\.Conn", r"conn\1verifZk", src)
+    new_src, n2 = re.subn(r"\n\tgo func\(\) \{\n.*?\n\t\}\(\)\n", "\n\tverifRegisterForwarder(tc, path, node, dataWatcher, childWatcher)\n", new_src, count=1, flags=re.S)
+    if n1 < 2 or n2 != 1 or "dataWatcher" not in src or "childWatcher" not in src:
+        return False
+    tmpl = open(os.path.join(D.VERIF, "overlay", "d2", "verif_treecache.go.tmpl")).read()
+    tmpl = tmpl.replace("__ZKIMPORT__", m.group(1)).replace("__PROLOGUE__", adapt(pro)).replace("__EVENT__", adapt(ev)).replace("__RETRY__", adapt(rt))
+    rig = os.path.join(od, "verif_treecache.go")
+    open(rig, "w").write(tmpl)
+    tc = os.path.join(od, "treecache_rewritten.go")
+    open(tc, "w").write(new_src)
+    repl[os.path.join(gdir, "d2", "verif_treecache.go")] = rig
+    repl[path] = tc
+    return True
 
 
 C19_MAPROT = {"VERIF_MAPROT": "3"}
@@ -62,11 +112,12 @@ def C19(sc, tier, replay, t0):
                                 deadline=(3000 if tier == "thorough" else 600))
     merged = D.merge_reports(reports)
     return D.finish("C19", tier, "model_checking", merged, t0,
-        rule="explicit enumeration of every ZooKeeper event history up to the stated length over 3 znodes, each replayed on a fresh snapshot chain through the real handleUriUpdate (function level) and through the real waitForUriUpdates/waitForServiceUpdates loops + ResolveHostnameAndContextForQuery (client level), compared with a reference fold after every event, with every earlier snapshot re-compared to the copy taken when it was handed out; selection: every announcement set x priority list x scripted RNG answer on a grid; states = distinct fold contents / announcement sets, transitions = handler or chooseHost calls; a class is (family, history length | selection outcome kind)",
-        assumptions=["D2 is driven below ZooKeeper: events are injected at handleUriUpdate / the wait loops; treecache.go and the zk connection are not exercised",
+        rule="explicit enumeration of every ZooKeeper event history up to the stated length over 3 znodes, each replayed on a fresh snapshot chain through the real handleUriUpdate (function level) and through the real waitForUriUpdates/waitForServiceUpdates loops + ResolveHostnameAndContextForQuery (client level), compared with a reference fold after every event, with every earlier snapshot re-compared to the copy taken when it was handed out; selection: every announcement set x priority list x scripted RNG answer on a grid; treecache: explicit-state exploration of (fake ZooKeeper, TreeCache) over every sequence of ZooKeeper writes up to the stated depth (create / set / delete of root, children, grandchild; session lost), every order in which the watch events they trigger reach the cache, both fates of events of nodes already told to stop, one connection error at any of the next 4 connection calls and the retry timer firing before or after later writes - the three blocks of TreeCache.loop and everything below them run on the real code without goroutines or timers (rig derived textually from the current treecache.go) and the fold of the emitted TreeCacheEvents must equal ZooKeeper's content at every quiescent point; states = distinct fold contents / announcement sets / explorer nodes, transitions = handler, chooseHost or rig calls; a class is (family, history length | selection outcome kind | execution shape)",
+        assumptions=["D2 is driven below ZooKeeper: events are injected at handleUriUpdate / the wait loops, and treecache.go runs against a fake ZooKeeper (znodes, one-shot data / child watches, ErrNoNode, an injectable connection error); the zk client library itself is not exercised",
+                     "treecache: the per-node relay goroutine (first watch event of a node generation is passed to the loop, then the goroutine ends; an event racing with the node's stop signal may or may not get through) and the 10 s retry timer are modelled by the rig, not executed; if the current treecache.go no longer has the shape the textual derivation needs, the part is reported as not explored (exhaustive=false), never guessed",
                      "Go map iteration order is owned through the runtime overlay (lib/c12.py maprot_overlay, one fixed iteration start per process, hash seeds fixed): the announcement maps are walked in the same order by both passes of a selection and by every call, which the client-level completeness clause (every eligible host with weight > 0 is returned for some draw of the 16-point grid) relies on; the per-draw selection oracle still accepts the choice of any order",
                      "history length and announcement-set size bounds as in sub_checks.bounds"],
-        trusted_base=MC_ASSUME + ["in-package export file overlay/d2/verif_export.go (forwards only)", "scripted rand.Source"])
+        trusted_base=MC_ASSUME + ["in-package export file overlay/d2/verif_export.go (forwards only)", "scripted rand.Source", "fake ZooKeeper and relay model in overlay/d2/verif_treecache.go.tmpl"])
 
 
 def simple_check(prop, harness, level, rule, assumptions, trusted, gens=("v2", "root"), deadline_q=600, deadline_t=3000,
